@@ -121,7 +121,8 @@ theorem evStep_ghost {k : Nat} {c : Hp.St} {cuts : Cuts} {e : Ev} {pc : Pc} {c' 
 theorem item_shape {s s' : St} {it : Item} (h : item s it = .ok s') :
     (∃ e th pc c' pc' rv cuts' th', s.ths[e.tid]? = some th ∧ th.pc = some pc ∧
         evStep s.bounds.length s.core s.cuts e pc = .ok ((c', pc', rv), cuts') ∧
-        s' = { s with core := c', cuts := cuts', ths := s.ths.set e.tid th' } ∧
+        s' = { s with core := c', cuts := cuts', ths := s.ths.set e.tid th',
+                      tags := if c'.claimed.length > s.core.claimed.length then s.tags ++ [(e.tid, th.idx)] else s.tags } ∧
         (th'.pc = some pc' ∨ th'.pc = none)) ∨
     (∃ t th th', s.ths[t]? = some th ∧ s' = { s with ths := s.ths.set t th' } ∧
         (th'.pc = th.pc ∨ ∃ op pc, th'.pc = some pc ∧ planCall s op = .ok (some pc))) := by
